@@ -17,6 +17,10 @@
 (*  - ScopesInsideLayout: the GC scope and every string-merge section      *)
 (*    scope open after `resolved` and are closed before `laid_out`;        *)
 (*  - at most one GC scope per link, string-merge scopes do not overlap;   *)
+(*  - ResInsideResolve: the archive-activation scope of                    *)
+(*    resolve_symbols_and_select_archive_entries (SymRes.tla is what       *)
+(*    happens inside it) opens after `symbols` and is closed before        *)
+(*    `resolved`; a linker plugin may run it a second time, never nested;  *)
 (*  - after a panic / abort / signal no further phase is reached; after an *)
 (*    error only `verified` and `finished` are (link_for_arch re-verifies). *)
 (* The per-protocol behaviour inside the scopes is GcProto / StringMerge;  *)
@@ -33,47 +37,65 @@ VARIABLES ph,        \* index of the last phase reached
           gc,        \* "none" | "open" | "closed": the GC traversal scope
           sm,        \* "closed" | "open": a string-merge section scope
           smCount,   \* string-merge sections completed
-          faulted    \* "no" | "error" (an Err is propagating) | "dead" (panic / abort / signal: no code runs on)
+          res,       \* "none" | "open" | "closed": the archive-activation (resolution) scope
+          resCount,  \* resolution scopes completed
+          faulted    \* "no" | "error" (an injected Err is propagating) | "silent" (an Err of the link itself, e.g. an
+                     \* undefined symbol: no hook event announces it) | "dead" (panic / abort / signal: no code runs on)
 
-wvars == <<ph, gc, sm, smCount, faulted>>
+wvars == <<ph, gc, sm, smCount, res, resCount, faulted>>
 
-WInit == ph = 1 /\ gc = "none" /\ sm = "closed" /\ smCount = 0 /\ faulted = "no"
+WInit == ph = 1 /\ gc = "none" /\ sm = "closed" /\ smCount = 0 /\ res = "none" /\ resCount = 0 /\ faulted = "no"
 
 InLayout == ph = Idx("resolved")
+InResolve == ph = Idx("symbols")
 
 Reach(p) ==
     /\ faulted = "no"
     /\ Idx(p) = ph + 1
     /\ (p = "laid_out" => (gc # "open" /\ sm = "closed"))
+    /\ (p = "resolved" => res # "open")
     /\ ph' = ph + 1
-    /\ UNCHANGED <<gc, sm, smCount, faulted>>
+    /\ UNCHANGED <<gc, sm, smCount, res, resCount, faulted>>
 
-GcBegin == faulted = "no" /\ InLayout /\ gc = "none" /\ gc' = "open" /\ UNCHANGED <<ph, sm, smCount, faulted>>
-GcEnd == gc = "open" /\ gc' = "closed" /\ UNCHANGED <<ph, sm, smCount, faulted>>
-SmBegin == faulted = "no" /\ InLayout /\ sm = "closed" /\ sm' = "open" /\ UNCHANGED <<ph, gc, smCount, faulted>>
-SmEnd == sm = "open" /\ sm' = "closed" /\ smCount' = smCount + 1 /\ UNCHANGED <<ph, gc, faulted>>
-Fault(p, kind) == faulted = "no" /\ Idx(p) = ph /\ gc # "open" /\ sm = "closed"   \* scopes join their tasks before an error leaves them
+GcBegin == faulted = "no" /\ InLayout /\ gc = "none" /\ gc' = "open" /\ UNCHANGED <<ph, sm, smCount, res, resCount, faulted>>
+GcEnd == gc = "open" /\ gc' = "closed" /\ UNCHANGED <<ph, sm, smCount, res, resCount, faulted>>
+SmBegin == faulted = "no" /\ InLayout /\ sm = "closed" /\ sm' = "open" /\ UNCHANGED <<ph, gc, smCount, res, resCount, faulted>>
+SmEnd == sm = "open" /\ sm' = "closed" /\ smCount' = smCount + 1 /\ UNCHANGED <<ph, gc, res, resCount, faulted>>
+ResBegin == faulted = "no" /\ InResolve /\ res # "open" /\ res' = "open" /\ UNCHANGED <<ph, gc, sm, smCount, resCount, faulted>>
+ResEnd == res = "open" /\ res' = "closed" /\ resCount' = resCount + 1 /\ UNCHANGED <<ph, gc, sm, smCount, faulted>>
+Fault(p, kind) == faulted = "no" /\ Idx(p) = ph /\ gc # "open" /\ sm = "closed" /\ res # "open"  \* scopes join their tasks before an error leaves them
                   /\ faulted' = (IF kind = "error" THEN "error" ELSE "dead")
-                  /\ UNCHANGED <<ph, gc, sm, smCount>>
+                  /\ UNCHANGED <<ph, gc, sm, smCount, res, resCount>>
 
 (* An Err from load_inputs_and_link does not stop link_for_arch: the inputs are still re-verified
    (an inputs-changed error takes precedence) before the error is returned, so the two points
    after the link proper are still reached, in order; nothing else is. *)
+LinkError ==     \* any phase's code returns Err: scopes have joined their tasks; the link proper is over
+    /\ faulted = "no" /\ ph < Idx("finished")
+    /\ gc # "open" /\ sm = "closed" /\ res # "open"
+    /\ faulted' = "silent"
+    /\ UNCHANGED <<ph, gc, sm, smCount, res, resCount>>
+
 ReachAfterError(p) ==
-    /\ faulted = "error"
+    /\ faulted \in {"error", "silent"}
     /\ p \in {"verified", "finished"}
     /\ ph < Idx(p) /\ (p = "finished" => ph >= Idx("verified") \/ ph < Idx("verified"))
     /\ ph' = Idx(p)
-    /\ UNCHANGED <<gc, sm, smCount, faulted>>
+    /\ UNCHANGED <<gc, sm, smCount, res, resCount, faulted>>
 
 WNext == (\E i \in 2..Len(Phases) : Reach(Phases[i]) \/ ReachAfterError(Phases[i])
                                      \/ \E k \in {"error", "panic"} : Fault(Phases[i], k))
-         \/ GcBegin \/ GcEnd \/ SmBegin \/ SmEnd
+         \/ GcBegin \/ GcEnd \/ SmBegin \/ SmEnd \/ ResBegin \/ ResEnd \/ LinkError
 
 WSpec == WInit /\ [][WNext]_wvars
 
 ScopesInsideLayout == (gc = "open" \/ sm = "open") => ph = Idx("resolved")
 GcBeforeWrite == ph >= Idx("laid_out") => gc # "open"
-SmBound == smCount <= 2
-WInv == ScopesInsideLayout /\ GcBeforeWrite /\ ph \in 1..Len(Phases) /\ smCount <= 3
+ResInsideResolve == res = "open" => ph = Idx("symbols")
+ResolvedBeforeLayout == (gc # "none" \/ sm = "open" \/ smCount > 0) => res # "open"
+(* What a zero exit status of the process that ran (or waited for) this pipeline promises. *)
+SuccessMeansFinished(rc) == rc = 0 => (faulted # "silent" /\ ph >= Idx("finished"))
+SmBound == smCount <= 2 /\ resCount <= 2
+WInv == ScopesInsideLayout /\ GcBeforeWrite /\ ResInsideResolve /\ ResolvedBeforeLayout
+        /\ ph \in 1..Len(Phases) /\ smCount <= 3 /\ resCount <= 3
 =============================================================================
